@@ -486,7 +486,11 @@ func componentCase(c *Case) (*WF, string) {
 			vals = append(vals, v)
 			b.WriteString(v + "\n")
 		}
-		w.Sources["params.txt"] = b.String()
+		content := b.String()
+		if n > 0 && t.Choose(simrt.StGen, 3, 0) == 1 {
+			content = content[:len(content)-1] // last line without a terminating newline
+		}
+		w.Sources["params.txt"] = content
 		nd := Node{Name: "rd", Kind: KFileToParams, FilePath: "params.txt", Vals: vals}
 		port := "line"
 		if kind == "cmdparams" {
